@@ -178,7 +178,7 @@ fn preload(t: &ValueTable, disk: &[u8; TE * TN]) {
 
 crate::verif_tbl! {
 #[kani::proof]
-#[kani::unwind(40)]
+#[kani::unwind(66)]
 fn c14_t1_next_free_step() {
 	let disk: [u8; TE * TN] = kani::any();
 	let filled: u64 = kani::any();
@@ -220,7 +220,7 @@ fn c14_t1_next_free_step() {
 
 crate::verif_tbl! {
 #[kani::proof]
-#[kani::unwind(40)]
+#[kani::unwind(66)]
 fn c14_t2_clear_slot_step() {
 	let disk: [u8; TE * TN] = kani::any();
 	let filled: u64 = kani::any();
@@ -259,7 +259,7 @@ fn c14_t2_clear_slot_step() {
 /// Must-fail twin for the table family.
 crate::verif_tbl! {
 #[kani::proof]
-#[kani::unwind(40)]
+#[kani::unwind(66)]
 fn c14_twin_must_fail() {
 	let disk: [u8; TE * TN] = kani::any();
 	let filled: u64 = kani::any();
